@@ -300,7 +300,7 @@ fn replay_walk(a: &Arena, arena_id: usize, limited: bool, walk: &[String]) -> Re
 
 pub fn check(tier: &str) -> i32 {
     let mut report = Report::new("C11", tier, "model_checking");
-    let depth: usize = std::env::var("RSV_DEPTH").ok().and_then(|s| s.parse().ok()).unwrap_or(if tier == "thorough" { 4 } else { 3 });
+    let depth: usize = std::env::var("RSV_DEPTH").ok().and_then(|s| s.parse().ok()).unwrap_or(if tier == "thorough" { 5 } else { 3 });
     let arena_ids: Vec<usize> = match std::env::var("RSV_ARENAS") {
         Ok(a) => a.split(',').filter_map(|x| x.parse().ok()).collect(),
         Err(_) => vec![0, 1, 2, 3, 4, 5, 6],
@@ -321,6 +321,8 @@ pub fn check(tier: &str) -> i32 {
             GEN_SEED.store(seed, std::sync::atomic::Ordering::SeqCst);
             // smaller arenas go one step deeper in the thorough tier
             let depth = if tier == "thorough" && std::env::var("RSV_DEPTH").is_err() && matches!(i, 1 | 3 | 6) { depth + 1 } else { depth };
+            // the second hash seed of the thorough tier only serves to show that the graph does not depend on hash orders: walk length 3
+            let depth = if seed != seeds[0] && std::env::var("RSV_DEPTH").is_err() { 3 } else { depth };
             let mut st = Stats::default();
             let mut f = vec![];
             explore(&a, i, depth, limited, &mut st, &mut f);
